@@ -130,7 +130,7 @@ def roundtrip_records(ck, m, record):
 
 import re
 _CHARREF = re.compile(r'&(#[0-9]+|#[xX][0-9a-fA-F]+|[A-Za-z][A-Za-z0-9]*);')
-_TITLE_AFTER_DEF = re.compile(r'^[> ]*\[[^\]\n]+\]: [^\n]*\n[> ]*[("\']', re.M)
+_TITLE_AFTER_DEF = re.compile(r'^[> \d.)*+-]*\[[^\]\n]+\]: [^\n]*\n[> ]*[("\']', re.M)      # (the definition may stand on a marker line)
 
 
 def reflow_documents(ck, m):
